@@ -1061,26 +1061,39 @@ fn main() {
         };
         let configs = spec.configs();
         let radix = configs.len() as u64;
-        let nm = Naming::plain(3);
-        let sources = |item: u64| -> Vec<(String, String)> {
-            let idx = graph::decode(item, 3, radix);
-            (0..3).map(|i| (nm.names[i].clone(), graph::source(i, &configs[idx[i]], &nm))).collect()
+        // plain names, and the two namings of C11 in which an edge reaches its target through a
+        // fallback prefix (the spelling of an `extends` differs from the resolved name: seeded
+        // change C06-10 compared the two in the ancestor walk, which then never came back for a
+        // cycle entered from outside)
+        let namings = [Naming::plain(3), Naming::prefixed_one(), Naming::prefixed_two()];
+        let per = radix * radix * radix;
+        let sources = |item: u64| -> (&Naming, Vec<(String, String)>) {
+            let nm = &namings[(item / per) as usize];
+            let idx = graph::decode(item % per, 3, radix);
+            (nm, (0..3).map(|i| (nm.names[i].clone(), graph::source(i, &configs[idx[i]], nm))).collect())
         };
         let fam = Family::new(
             "template-sets",
-            radix * radix * radix,
-            &format!("all {radix}^3 extends/include graphs on 3 templates ({}), registered in one batch and one template at a time in both directions: Ok or Err, no panic / hang / crash", spec.describe()),
+            per * namings.len() as u64,
+            &format!("all {radix}^3 extends/include graphs on 3 templates ({}) x 3 namings (plain; one fallback prefix; two fallback prefixes: edges spelled through a prefix), registered in one batch and one template at a time in both directions: Ok or Err, no panic / hang / crash", spec.describe()),
         )
         .timeout(20.0)
         .budget(300.0)
-        .describe(|i| json!({"family": "template-sets", "templates": sources(i)}))
+        .describe(|i| { let (nm, t) = sources(i); json!({"family": "template-sets", "fallback_prefixes": nm.prefixes, "templates": t}) })
         .crash_signature(|_, kind| format!("{kind}:add_raw_templates:template-set"));
         run.family(fam, |item, acc| {
-            let tpls = sources(item);
-            let case = || json!({"family": "template-sets", "templates": tpls});
+            let (nm, tpls) = sources(item);
+            let case = || json!({"family": "template-sets", "fallback_prefixes": nm.prefixes, "templates": tpls});
+            let fresh = || {
+                let mut t = tera::Tera::default();
+                if !nm.prefixes.is_empty() {
+                    t.set_fallback_prefixes(nm.prefixes.clone()).expect("prefixes on an empty instance");
+                }
+                t
+            };
             let mut outcomes = String::new();
             // one batch
-            let mut t = tera::Tera::default();
+            let mut t = fresh();
             match guarded(|| t.add_raw_templates(tpls.iter().map(|(n, s)| (n.as_str(), s.as_str())))) {
                 Ok(Ok(())) => outcomes.push_str("ok"),
                 Ok(Err(e)) => {
@@ -1091,7 +1104,7 @@ fn main() {
             }
             // one at a time, forwards and backwards (most of these calls fail: dangling targets)
             for rev in [false, true] {
-                let mut t = tera::Tera::default();
+                let mut t = fresh();
                 let order: Vec<usize> = if rev { vec![2, 1, 0] } else { vec![0, 1, 2] };
                 for i in order {
                     if let Err(p) = guarded(|| t.add_raw_template(&tpls[i].0, &tpls[i].1)) {
@@ -1099,7 +1112,7 @@ fn main() {
                     }
                 }
             }
-            acc.case(true, &format!("batch:{outcomes}"));
+            acc.case(true, &format!("{}:batch:{outcomes}", if nm.prefixes.is_empty() { "plain" } else { "prefixed" }));
         });
     }
 
